@@ -112,6 +112,12 @@ def oracle(c):
                 return ('parent-altered', {'after_update': kw})
         ancestors.append((ps, _snapshot(ps)))
     fresh = PS(**ps.get_fields())
+    # a freshly built state with the same field values HAS the same field values (the constructor's own
+    # normalisations - no math delimiter outside math mode - are already in effect in the derived state)
+    ff, df = fresh.get_fields(), ps.get_fields()
+    for k in df:
+        if k not in ('s', 'latex_context') and ff.get(k) != df[k]:
+            return ('derived-fields-differ-from-fresh', {'field': k, 'derived': repr(df[k]), 'fresh': repr(ff.get(k))})
     if T.dump_caches(ps) != T.dump_caches(fresh):
         return ('derived-caches-differ-from-fresh', {'derived': T.dump_caches(ps), 'fresh': T.dump_caches(fresh)})
     for tol in (False, True):
